@@ -459,3 +459,39 @@ def stored_values_are_tested_for_presence_not_truth(ctx):
             ctx.ok(f'{f.qualname}:stored values are read', uses[0], f'{len(uses)} reads of the stored values, none decided by truth value', f)
     if not n:
         raise AnchorMissing('no read of the stored values (loadPersistentData) found in PersistentMixin.__init__ / loadParameters')
+
+
+@rule('C17.R7', min_instances=1)
+def init_writes_are_taken_out_of_the_write_dict(ctx):
+    """Module.writeInitParams (with its helpers) hands the values waiting in writeDict over and REMOVES them: saveParameters
+    refuses to save while writeDict is not empty ("do not save before all values are written to the hardware") - an entry that
+    is only read (`.get`, a subscript) stays there for ever, every later save returns early, the file goes stale silently"""
+    m = ctx.m
+    f = m.method('frappy.modulebase.Module', 'writeInitParams', inherited=False)
+    ctx.analysed(f)
+    units = [f] + [h for site, h in helper_methods_called(m, f)]
+    n = 0
+    for g in units:
+        for x in body_walk(g.node):
+            read_only = (isinstance(x, ast.Call) and call_attr(x) == 'get' and src(x.func.value) == 'self.writeDict') or \
+                (isinstance(x, ast.Subscript) and isinstance(x.ctx, ast.Load) and src(x.value) == 'self.writeDict')
+            taken = isinstance(x, ast.Call) and call_attr(x) in ('pop', 'popitem') and src(x.func.value) == 'self.writeDict'
+            if not (read_only or taken):
+                continue
+            n += 1
+            ctx.analysed(g)
+            if taken:
+                ctx.ok(f'{g.qualname}:the waiting value is taken out of writeDict', x, f'`{src(x)}`', g)
+                continue
+            gcfg = CFG(g.node, m, g.module)
+            rem = [i for y in body_walk(g.node) if (isinstance(y, ast.Delete) and any('self.writeDict' in src(t) for t in y.targets)) or
+                   (isinstance(y, ast.Call) and call_attr(y) in ('pop', 'clear') and src(y.func.value) == 'self.writeDict') for i in gcfg.node_of(y)]
+            loop = next((a for a in ancestors(x) if isinstance(a, (ast.For, ast.While))), None)
+            ends = [gcfg.exit] + (list(gcfg.ids(loop)) if loop is not None else [])
+            # on every way from the read to the end of this round (the next item / the end of the function) the entry is removed
+            removed_later = bool(rem) and gcfg.all_paths_pass(gcfg.node_of(x), ends, rem, exc=False)
+            ctx.check(removed_later, f'{g.qualname}:the waiting value is taken out of writeDict', x, 'read and removed in the same function',
+                      f'`{src(x)}` reads the waiting value and leaves it in writeDict: saveParameters() returns early as long as writeDict is not empty - from then on '
+                      'neither an explicit nor an automatic save writes the file, the stored values go stale without any message', g)
+    if not n:
+        raise AnchorMissing('no access to self.writeDict found in writeInitParams')
